@@ -483,6 +483,19 @@ func c16matrix(c *h.Ctx, r *h.Rand) {
 						}
 						out, class := eval(text)
 						c.Hold(class == "ok" && bytes.Equal(out, payload), "C16_roundtrip", id, class+" "+h.Hex(out), "ok "+h.Hex(payload))
+						// the object as returned by Encrypt (not parsed) decrypts too — twice — and decrypting it must not
+						// change it: it still serialises to the same text afterwards (Decrypt works on the object's own buffers)
+						for rep := 0; rep < 2; rep++ {
+							fo, fclass := c16safe(func() ([]byte, error) { return obj.Decrypt(ec.decKey) })
+							c.Hold(fclass == "ok" && bytes.Equal(fo, payload), "C16_roundtrip.fresh_object", fmt.Sprintf("%s decrypt #%d of the object returned by Encrypt", id, rep+1), fclass+" "+h.Hex(fo), "ok "+h.Hex(payload))
+						}
+						var text2 string
+						if compact {
+							text2, _ = obj.CompactSerialize()
+						} else {
+							text2 = obj.FullSerialize()
+						}
+						c.Hold(text2 == text, "C16_roundtrip.decrypt_does_not_modify", id, h.Trunc(text2, 120), h.Trunc(text, 120))
 						c.Hold(class != "ok" || bytes.Equal(gotAad, aad), "C16_roundtrip.aad", id, h.Hex(gotAad), h.Hex(aad))
 						parsed, perr := jose.ParseEncrypted(text)
 						if perr != nil {
